@@ -106,17 +106,60 @@ Proof. exact format_cleanup_pinned_witness. Qed.
 Print Assumptions C15_format_cleanup_pinned_refuted.
 
 (** set_attr: the new value has exactly one owner afterwards whatever the hooks
-    answer - the attribute when pre_set accepted it (also if post_set then
-    fails), nobody (it was discarded) when pre_set refused - and the old value
-    is discarded exactly when it was replaced *)
+    answer and whether or not the new / the old value is dynamically allocated
+    (a dynamic string, bitmap or blob is a token, a static or embedded value is
+    [None]): the attribute owns it when pre_set accepted it (also if post_set
+    then fails); a REJECTED new value is discarded according to ITS OWN flags,
+    the old value is kept; the old value is discarded exactly when replaced *)
 Theorem C15_set_attr_owns_value : forall old newv pre_ok post_ok s L K P F,
-  St s (newv :: optl old ++ L) K P F ->
-  wp (set_attr old newv pre_ok post_ok)
+  St s (optl newv ++ optl old ++ L) K P F ->
+  wp (set_attr false old newv pre_ok post_ok)
      (fun r s' => St s' (optl (snd r) ++ L) K P F /\
-                  (pre_ok = true -> snd r = Some newv) /\ (pre_ok = false -> snd r = old) /\
+                  (pre_ok = true -> snd r = newv) /\ (pre_ok = false -> snd r = old) /\
                   (fst r = true -> pre_ok = true /\ post_ok = true)) s.
 Proof. exact set_attr_owns_value. Qed.
 Print Assumptions C15_set_attr_owns_value.
+
+(** a discard_new_value that looks at the attribute's (old value's) flags loses
+    a rejected dynamic string on an attribute that had no dynamic value *)
+Theorem C15_set_attr_by_old_flags_refuted :
+  let '(r, tr, _) := run (n <- alloc S_value ;;
+                          match n with
+                          | Some v => x <- set_attr true None (Some v) false true ;; free_opt (snd x) ;;; ret (fst x)
+                          | None => ret false
+                          end) [] in
+  r = false /\ ~ balanced tr.
+Proof. exact set_attr_by_old_flags_witness. Qed.
+Print Assumptions C15_set_attr_by_old_flags_refuted.
+
+(** diskdump_read_page: for raw and compressed pages, every compression method
+    (built in or not), every decompressor verdict (ok, error, well-formed stream
+    of the wrong size), every chunk geometry and every failure while getting the
+    chunk: whichever exit is taken, no file-cache reference and no buffer is
+    kept *)
+Theorem C15_diskdump_page_exits_balanced :
+  forall pol big pages compressed m compiled r s L K P F,
+  (big = false -> length pages <= 2) ->
+  St s L K P F ->
+  wp (diskdump_read_page false pol big pages compressed m compiled r)
+     (fun _ s' => exists F', St s' L K P F') s.
+Proof. exact diskdump_page_exits_balanced. Qed.
+Print Assumptions C15_diskdump_page_exits_balanced.
+
+Theorem C15_diskdump_page_run_clean : forall pol big pages compressed m compiled r sch,
+  (big = false -> length pages <= 2) ->
+  let '(_, tr, _) := run (diskdump_read_page false pol big pages compressed m compiled r) sch in clean tr.
+Proof. exact diskdump_page_run. Qed.
+Print Assumptions C15_diskdump_page_run_clean.
+
+(** an exit that returns before the common fcache_put_chunk (the zstd "wrong
+    uncompressed size" check) keeps the chunk's entries referenced *)
+Theorem C15_diskdump_page_early_return_refuted :
+  exists pages,
+    let '(r, s) := diskdump_read_page true PNever false pages true MZstd true DecWrongSize (init [] 0 []) in
+    r = false /\ exists x, summary s = Some x /\ pins x <> [].
+Proof. exact diskdump_page_early_return_witness. Qed.
+Print Assumptions C15_diskdump_page_early_return_refuted.
 
 (** contexts: what kdump_new / kdump_clone took (memory, reference counts on
     the shared state, dictionary and translation, the lock) is given back by
